@@ -124,6 +124,10 @@ def run(ch, params, decoded=False):
                     q = ref.run_model(prog, quirks=["extra_context_as_code"])["result"]
                     if q[0] == "ok" and real[0] == "ok" and R.normalise(real[1]) == q[1]:
                         cls, fp = "SCOPE-FILL-CAPTURED-VARIABLES-MISORDERED", ["fill-captured-variables-misordered"]
+                    else:
+                        q = ref.run_model(prog, quirks=["forloop_layer", "extra_context_as_code"])["result"]
+                        if q[0] == "ok" and real[0] == "ok" and R.normalise(real[1]) == q[1]:
+                            cls, fp = "SCOPE-F7-AND-F15-COMPOSED", ["loop-layer-forwarding-composed-with-captured-variable-merging"]
             v = {"class": cls, "fingerprint": fp, "detail": {"variant": variant, "what": bad[2]}}
             v["known"] = findings.classify("C03", v, prog)
             violations.append(v)
